@@ -15,6 +15,15 @@ CHECKS = {
              "exhaustive small event domain; rows and values must equal the query text evaluated by CPython. Exhaustive within the stated bounds, nothing sampled.",
         design="DESIGN.md section 3 C01", technique="explicit-state enumeration of the query grammar's derivation graph x exhaustive event domain, reference-model comparison on every execution",
         note=NOTE_EDM),
+    "C07": dict(
+        text="Explicit-state BFS in which the real process is the state machine: a state is an event history (new executor / attach extended "
+             "metadata / translate menu query q on live executor i, where the menu holds succeeding queries and queries failing at each stage that "
+             "carry every kind of state-bearing metadata) replayed in a fork of a pristine interpreter. On every transition the normalised package "
+             "or exception must equal the one a fresh process produces. All histories up to the depth bound are expanded; the canonical state hash "
+             "(all module globals, class attributes, mutable defaults, executor fields) is only used to count states and, in the thorough tier, to deduplicate.",
+        design="DESIGN.md section 3 C07", technique="explicit-state BFS over event histories on the live interpreter (fork per history), invariant evaluated on every transition",
+        note="Trusted base: os.fork snapshot semantics, the menu of queries (each verified to succeed/fail as intended in a pristine process), name normalisation "
+             "(mc/lang/norm.py). Depth 4 histories / 2 live executors quick, depth 5 / 3 executors thorough."),
     "C14": dict(
         text="Every subset of the seven inject_code fields, every template-special line text in every field, and every ordered pair (thorough: triple) "
              "of blocks from a menu of relations (distinct, identical duplicate, conflicting duplicate, reordered duplicate, unknown field, empty) at every "
